@@ -25,6 +25,7 @@ use tokio::sync::broadcast;
 
 use crate::fixtures::{fix, topic, Event, Msg, Op, E, L, LOG};
 use crate::pipe::{pipe, Faults, Io, Item, Stage, StreamFault};
+use crate::util::{brief, Collector};
 
 #[derive(Clone, Copy, Debug, PartialEq, Eq, Hash, PartialOrd, Ord)]
 pub enum Ev {
@@ -528,7 +529,7 @@ fn build_faults(n_deliveries: usize, n_sends: usize) -> Vec<(String, Faults<Msg>
 
 pub fn run(mut rep: Report) -> i32 {
     let thorough = rep.thorough();
-    let max_dev = if thorough { 4 } else { 1 };
+    let max_dev = if thorough { 4 } else { 2 };
     rep.rule = "case = (successful transcript variant, one injected fault at one transcript position, choice vector of select!-start-branch and late-frame decisions); counted non-trivial when the injected fault was actually reached by the session (or the case is the fault-free transcript) and all events on the session's broadcast channel were judged by the lifecycle automaton".into();
     rep.assume("the remote is scripted: it does not validate what the session sends, it only reacts to a Close frame (closes its stream) where the variant says so");
     rep.assume("exactly one fault per execution; store faults (TopicStore::resolve, LogStore) and a broadcast channel without receivers are outside the fault alphabet");
@@ -538,6 +539,7 @@ pub fn run(mut rep: Report) -> i32 {
 
     let vs = variants();
     let mut variant_summaries = vec![];
+    let mut all: Collector<(usize, Obs)> = Collector::new();
     for v in &vs {
         // Fault-free baseline fixes the transcript positions.
         let base = run_one(v, Faults::default(), &Chooser::new(vec![]), false);
@@ -548,10 +550,9 @@ pub fn run(mut rep: Report) -> i32 {
             wall: std::time::Duration::from_secs(if thorough { 120 } else { 8 }),
             threads: rep.args.threads,
         };
-        let mut keys_seen: BTreeMap<String, ()> = BTreeMap::new();
         let mut hit = 0u64;
         let mut not_hit = 0u64;
-        let mut pending: Vec<(String, String, explorer::Value, Vec<u32>, usize, Obs)> = vec![];
+        let mut coll: Collector<(usize, Obs)> = Collector::new();
         let st = dfs_par(
             &cfg,
             |ch| {
@@ -569,38 +570,55 @@ pub fn run(mut rep: Report) -> i32 {
                 }
                 rep.outcome(&(v.name, &obs.events, &obs.res, &obs.end));
                 rep.state(&(v.name, &obs.events, &obs.res, &obs.io));
-                if rep.want_sample() && fi % 37 == 5 {
-                    rep.sample(json!({
-                        "variant": v.name, "fault": faults[fi].0, "choices": ch.describe(),
-                        "events": format!("{:?}", obs.events), "result": format!("{:?}", obs.res),
-                        "io": format!("{:?}", obs.io),
-                    }));
-                }
                 if let Some((key, detail)) = judge(&obs) {
-                    let what = format!(
-                        "variant '{}', fault: {}; events seen: {:?}; run() -> {:?} ({:?}); I/O: {:?}. {}",
-                        v.name, faults[fi].0, obs.events, obs.res, obs.end, obs.io, detail
-                    );
-                    let replay = json!({"part": v.name, "fault_index": fi, "fault": faults[fi].0, "vector": vector, "choices": ch.describe()});
-                    if keys_seen.insert(key.clone(), ()).is_none() {
-                        pending.push((key.clone(), what.clone(), replay.clone(), vector.clone(), fi, obs.clone()));
-                    }
-                    rep.violation(key, what, replay);
+                    let rank = (ch.deviations() as u64, vector.len() as u64, vector.clone());
+                    coll.add(key, rank, &(fi, obs.clone()), || {
+                        (
+                            format!(
+                                "variant '{}', fault: {}; schedule: {}; events seen: {:?}; run() -> {:?} ({:?}); I/O: {:?}. {}",
+                                v.name, faults[fi].0, brief(ch), obs.events, obs.res, obs.end, obs.io, detail
+                            ),
+                            json!({"part": v.name, "fault_index": fi, "fault": faults[fi].0, "vector": vector, "choices": ch.describe()}),
+                        )
+                    });
                 }
             },
         );
-        // Determinism of every reported class: replay its first witness twice.
-        for (key, _what, _replay, vector, fi, obs) in pending {
+        // Determinism of every reported class: replay its minimal witness twice.
+        for (key, e) in &coll.map {
             for _ in 0..2 {
-                let ch = Chooser::new(vector.clone());
+                let ch = Chooser::new(e.rank.2.clone());
                 let fi2 = ch.choose_free(faults.len(), "fault");
                 let again = run_one(v, faults[fi2].1.clone(), &ch, true);
-                if fi2 != fi || again != obs {
+                if fi2 != e.obs.0 || again != e.obs.1 {
                     rep.machinery_error(format!(
                         "C22 {}: witness of {key} is not reproducible (uncaptured nondeterminism)",
                         v.name
                     ));
                 }
+            }
+        }
+        // Keep the overall minimal witness per class across variants (variants are ordered from
+        // the simplest transcript to the richest).
+        for (key, e) in coll.map {
+            match all.map.get_mut(&key) {
+                Some(a) => a.count += e.count,
+                None => {
+                    all.map.insert(key, e);
+                }
+            }
+        }
+        // A few real cases for the evidence file.
+        for fi in [0usize, 1, faults.len() / 2] {
+            if rep.want_sample() {
+                let ch = Chooser::new(vec![fi as u32]);
+                let fi2 = ch.choose_free(faults.len(), "fault");
+                let obs = run_one(v, faults[fi2].1.clone(), &ch, true);
+                rep.sample(json!({
+                    "variant": v.name, "fault": faults[fi2].0, "choices": ch.describe(),
+                    "events": format!("{:?}", obs.events), "result": format!("{:?}", obs.res),
+                    "io": format!("{:?}", obs.io),
+                }));
             }
         }
         rep.absorb_dfs(v.name, &st, max_dev);
@@ -610,6 +628,7 @@ pub fn run(mut rep: Report) -> i32 {
             "executions_fault_reached": hit, "executions_fault_not_reached": not_hit,
         }));
     }
+    all.flush(&mut rep);
     rep.set("variants", json!(variant_summaries));
     rep.set("fault_alphabet", json!([
         "stream closes", "undecodable frame (Err item)", "unexpected Sync(Have)", "unexpected Sync(PreSync)",
